@@ -48,7 +48,12 @@ func (gowrapSuite) Gen(r *rand.Rand, i int) Case {
 			cdl = 1 // the caller's own context carries a LATER deadline: the execution timeout must still end the call
 			c.Tags = append(c.Tags, "caller-deadline")
 		}
-		c.Ops = append(c.Ops, fmt.Sprintf("go fn=%s out=%s finish=%d ctx=%s via=%s lost=%d nilc=%d cdl=%d dis=%d", fn, out, finish, ctx, via, lost, nilc, cdl, dis))
+		live := 0
+		if nilc == 0 && r.Intn(4) == 0 {
+			live = 1 // a live reconfiguration that leaves the optional fields (hooks, clock) unset precedes the call
+			c.Tags = append(c.Tags, "live-partial-reconfig")
+		}
+		c.Ops = append(c.Ops, fmt.Sprintf("go fn=%s out=%s finish=%d ctx=%s via=%s lost=%d nilc=%d cdl=%d dis=%d live=%d", fn, out, finish, ctx, via, lost, nilc, cdl, dis, live))
 		c.Tags = append(c.Tags, "ctx-"+ctx, "fn-"+fn)
 		if strings.HasPrefix(out, "panic") {
 			c.Tags = append(c.Tags, "panic")
@@ -126,6 +131,14 @@ func runGoScenario(m map[string]string) string {
 			})
 		}
 		c = mgr.MustCreateCircuit("g", cfg)
+		if m["live"] == "1" {
+			// SetConfigThreadSafe changes the live settings only: what was given at construction (the lost-error hook
+			// among it) stays in force even when the new config leaves it unset
+			part := c.Config()
+			part.General.GoLostErrors = nil
+			part.General.TimeKeeper = circuit.TimeKeeper{}
+			c.SetConfigThreadSafe(part)
+		}
 	}
 	ctx, cancel := context.WithCancel(context.Background())
 	defer cancel()
